@@ -82,6 +82,23 @@ def shard(args):
         ok, r = call(p, lambda: getattr(v, p))
         if ok:
             expect_scalar(p, r, pk, p, [v])
+    # ---- every momentum spelling of a property reaches the kernel of the geometric name (C14's table; here as glue obligations so that the
+    #      checks of C01/C02, which own "every property ... computes its definition", cover the aliases too)
+    if mom1:
+        from .c14 import SYN as _SYN, NEEDS as _NEEDS, GROUPS as _GROUPS
+        for syn, gen in _SYN.items():
+            if _NEEDS[gen] > d:
+                continue
+            pk = "planar" if gen in PLANAR_PROPS else "spatial" if gen in SPATIAL_PROPS else "lorentz"
+            ok, r = call(syn, lambda syn=syn: getattr(v, syn))
+            if ok:
+                expect_scalar(syn, r, pk, gen, [v])
+        if d == 4:
+            for grp in _GROUPS:
+                for alias in grp[1:]:
+                    ok, r = call(alias, lambda alias=alias: getattr(v, alias))
+                    if ok:
+                        expect_scalar(alias, r, "lorentz", grp[0], [v])
     # ---- unary vector methods
     k, a, b_, c_ = T("k"), T("a"), T("b"), T("c")
     pkd = PKD[d]
@@ -317,6 +334,13 @@ def main(argv):
     res = C.pool_map(shard, jobs)
     n = ob.n + sum(r[0] for r in res)
     bad = ob.bad + [b for r in res for b in r[1]]
+    # the named conversions (to_<system>, to_VectorND, like): result dimension / coordinate system as named - the C04 lattice under this property's label
+    from . import c04
+    cres = C.pool_map(c04.shard, jobs)
+    n += sum(r[0] for r in cres)
+    conv_bad = [(oid.replace("C04/", "C05/conversion:", 1), d_) for r in cres for oid, d_ in r[1]]
+    bad += conv_bad
+    conv_ids = {oid for oid, _ in conv_bad}
     # bounded part: result dimension / coordinate system / flavor of every method on the NumPy and Awkward backends against the object
     # backend (the Engine D lattice of C03; only its class obligations, tagged C05, belong here)
     from .. import engined as E
@@ -341,7 +365,7 @@ def main(argv):
             nviol += len(items)
             report.violation(oid, dict(kind="object-backend-symbolic-evaluation", obligation_group=gname, failing_lattice_points=len(items),
                                        first=dict(obligation=oid, detail=detail), others=[o for o, _ in items[1:6]],
-                                       replay_handler="vv.props.engined_prop:replay" if oid in arr_ids else "vv.props.c05:replay"), has_input="/numba-glue/" not in oid)
+                                       replay_handler="vv.props.engined_prop:replay" if oid in arr_ids else "vv.props.c05:replay_conv" if oid in conv_ids else "vv.props.c05:replay"), has_input="/numba-glue/" not in oid)
     level = "proof" if not bad and not report.errors else "other"
     coverage = dict(obligations=n - nknown, discharged=n - len(bad), obligations_posed=n, known_findings=nknown, violations=nviol,
                     by_backend={"term identity on symbolic evaluation of the real object backend": n - len(bad)},
@@ -482,3 +506,10 @@ def backend_lattice(ob):
                                          f"backend {backend_of(r)} for self backend {b1}")
                             except Exception as e:
                                 ob.check(f"backend-lattice/defined/rotate_axis{pid}", False, f"{type(e).__name__}: {str(e)[:150]}")
+
+
+def replay_conv(prop, rp, path):
+    from . import c04
+    rp2 = dict(rp)
+    rp2["first"] = dict(rp["first"], obligation=rp["first"]["obligation"].replace("C05/conversion:", "C04/", 1))
+    return c04.replay(prop, rp2, path)
